@@ -43,8 +43,8 @@ CLAIMS = {
               "url.URL.String() rendering (trusted: authority comes from Host only when Opaque is empty), gorilla's dialer (redirects, proxies from environment), DNS.", "DESIGN.md section 4 C13"),
  "C14": claim("Proof for all statuses, header maps, methods and bodies on the banner path: the three predicates equal their stated definitions (GET + Accept contains text/html; 200 + some Content-Type value containing text/html (or application/xhtml+xml) + no Content-Disposition value containing attachment - loop invariants over all header values; already-framed iff Sec-Fetch-Mode is nested-navigate or Sec-Fetch-Dest is iframe or, as a fallback only, the Referer parses to this request's host and path); the response writer commits once with the backend's status, changes only Cache-Control / Date / Expires / Pragma / X-Frame-Options (and Content-Encoding when it serves the frame page) and only for frameable HTML, leaving every header of every other response untouched, writes the frame page exactly once instead of the body when framing, and otherwise passes every body chunk through with the same slice; the handler gives non-HTML requests the original writer and HTML requests a fresh banner writer around it carrying this request's URL and framing verdict; the frame page is rendered once from the wrapper template with the requested URL's String(); the shim-script injector leaves body and headers of every response whose Content-Type lacks html untouched, and for html takes one read of at most 1024 bytes, replaces the first <head> in exactly those bytes once by <head>+script, serves that prefix followed by the rest of the original body, closes the original on Close and removes only Content-Length.",
               "strings.Replace / io.MultiReader / strings.NewReader semantics (trusted specs: first-n replacement, concatenation), html/template rendering of the frame page, net/http header canonicalisation, a <head> split across the first read boundary (then nothing is inserted - allowed by the property).", "DESIGN.md section 4 C14"),
- "C15": claim("Proof for all sizes and segmentations: bytes returned by Read followed by the bytes kept are exactly the buffer (or the one non-empty decoded text frame) the call started with - nothing lost, duplicated or reordered; frames are decoded only when nothing is buffered and only text frames; Write sends exactly one text frame with the hex of exactly its argument and touches none of Read's state (disjoint frames).",
-              "gorilla framing, hex codec inverse pair, io.Copy, TCP, isolation between connections.", "DESIGN.md section 4 C15"),
+ "C15": claim("Proof for all sizes and segmentations: bytes returned by Read followed by the bytes kept are exactly the buffer (or the one non-empty decoded text frame) the call started with - nothing lost, duplicated or reordered; frames are decoded only when nothing is buffered and only text frames; Write sends exactly one text frame with the hex of exactly its argument and touches none of Read's state (disjoint frames); the bridge handler passes non-bridge requests to the passthrough handler untouched, wraps exactly the upgraded websocket in a fresh per-connection codec state, dials the configured local port and copies each direction once between exactly that pair.",
+              "gorilla framing, hex codec inverse pair, io.Copy, TCP.", "DESIGN.md section 4 C15"),
  "C17": claim("Proof for all identities, ids and records (every handler verified for an arbitrary store state): an agent endpoint reaches the store only after checkBackendID validated the caller's OAuth identity against the backend named in the request, and then only under that validated id; a rejected caller gets exactly one 401 write and no store access; the admin API calls the backend CRUD operations only after isAdminRequest returned true (403 otherwise), isAdminRequest is true iff App Engine admin or OAuth admin; the end-user handler routes for the signed-in user's e-mail (401 when anonymous); agent paths other than the three endpoints get 404.",
               "App Engine's user / datastore / memcache services (trusted specs), the store implementations behind types.Store other than the lookup functions (effects assumed confined to the datastore), the cron path's admin restriction (app yaml, outside Go).", "DESIGN.md section 4 C17"),
  "C19": claim("Proof of the split arithmetic for all sizes (part i is exactly the i-th 1,000,000-byte window, keys <name>.part<i> in order, inline part exactly the first 1,000,000 bytes, all slice bounds safe, parts fetched in listed order) and of the id correlation on every hop (request stored / polled / answered / read under the same backend and request id, response recorded and request marked completed only for an existing request of the validated backend, the served bytes are the stored ones), plus channel-capacity safety of the two concurrent store writes.",
